@@ -337,6 +337,105 @@ FWDSHUTDOWN = ops_family("fwdshutdown", "^TestW2ForwardShutdown$", ["fwdshutdown
                               "minutes in between", n_quick=30, n_thorough=600)
 
 
+def _regrace_monitor(op, im):
+    """C12 under real concurrency: once all n open callbacks of a round have fired, the registry is exactly those n tunnels."""
+    if not op.startswith("rr.round"):
+        return None
+    k = dict(a.split("=", 1) for a in op.split()[1:] if "=" in a)
+    o = dict(a.split("=", 1) for a in im.split() if "=" in a)
+    n = k.get("n")
+    if o.get("open") != n:
+        return "open-callback-missing"
+    if o.get("all") != n:
+        return "registry-not-exact"
+    if o.get("ready") != "1":
+        return "ready-wrong-for-key"
+    if o.get("distinct") != n:
+        return "keyed-channel-does-not-reach-every-open-tunnel"
+    if k.get("waiter") == "1" and o.get("waiter") != "ok":
+        return "waiter-not-released"
+    if o.get("closed") != n:
+        return "close-callback-missing"
+    if o.get("left") != "0" or o.get("readyafter") != "0":
+        return "registry-entry-left-behind"
+    return None
+
+
+REGRACE = ops_family("regrace", "^TestW2RegistryRace$", ["regrace"], monitor=_regrace_monitor,
+                     nontrivial=lambda op, im, mo: True,
+                     rule="real grpc-go (bufconn), real clock and parallelism, no bubble: per round a FRESH affinity key, 2-4 reverse tunnels whose registrations are "
+                          "released together by a barrier inside the AffinityKey callback, optionally a concurrent KeyAsChannel(key).WaitForReady; once all open "
+                          "callbacks fired: AllReverseTunnels, Ready, n consecutive routed RPCs (distinct serving tunnels), the waiter; then every tunnel ends: "
+                          "close callbacks, empty registry; compared with the registry model's schedule-independent answer",
+                     n_quick=120, n_thorough=1500)
+
+
+def _idorder_monitor(op, im):
+    """C08 under real concurrency: every started RPC's id is on the wire, in strictly increasing order, new_stream first."""
+    if not op.startswith("io.round"):
+        return None
+    o = dict(a.split("=", 1) for a in im.split() if "=" in a)
+    if o.get("increasing") != "1":
+        return "ids-out-of-order-on-the-wire"
+    if o.get("distinct") != "1":
+        return "duplicate-id-on-the-wire"
+    if o.get("newfirst") != "1":
+        return "frame-before-new-stream"
+    if o.get("allsent") != "1":
+        return "started-rpc-without-new-stream"
+    return None
+
+
+IDORDER = ops_family("idorder", "^TestIdOrder$", ["idorder"], monitor=_idorder_monitor,
+                     nontrivial=lambda op, im, mo: True,
+                     rule="real newTunnelChannel over a recording carrier, real clock and parallelism, no bubble: per round 2-8 goroutines start 1-3 RPCs each after a "
+                          "common barrier (plain, sending at once, half-closing at once, on a cancelled context), random delays at the yield point between id "
+                          "allocation and the new_stream Send; observed: every id on the wire, strictly increasing, distinct, each stream's first frame its "
+                          "new_stream; compared with the IdAlloc model's (schedule-independent) answer",
+                     n_quick=60, n_thorough=1500)
+
+
+def _bounded_monitor(op, im):
+    """C05 / C03 on a tunnel with bounded carriers and stalled applications: a reading application receives everything
+    whatever the other streams do; a sender is blocked only behind one full unread window; nothing exceeds a window."""
+    if not op.startswith("bd.round"):
+        return None
+    k = dict(a.split("=", 1) for a in op.split()[1:] if "=" in a)
+    halves = k["cfg"].split(";")
+    rows = {}
+    for part in im.split():
+        if ":" in part and part.split(":")[0].isdigit():
+            i, v = part.split(":")
+            rows[int(i)] = [int(x) for x in v.split(",")]
+    if "started=" in im:
+        return "rpc-could-not-be-started"
+    for i, h in enumerate(halves):
+        _, willing, ms = h.split(":")
+        total = sum(int(x) for x in ms.split(",")) if ms != "-" else 0
+        if i not in rows:
+            return "no-observation"
+        sent, deliv, queued, rem = rows[i]
+        if willing == "1" and deliv != total:
+            return "reading-stream-did-not-complete"
+        if willing == "0" and sent > 65536:      # a stalled application has taken nothing: everything sent is unread
+            return "window-exceeded"
+        if willing == "0" and rem > 0 and queued != 65536:
+            return "sender-blocked-without-full-window"
+    if "serve-did-not-return" in im or "goroutines-left" in im:
+        return "tunnel-end-did-not-release-everything"
+    return None
+
+
+BOUNDED = ops_family("bounded", "^TestBounded$", ["bounded"], monitor=_bounded_monitor,
+                     nontrivial=lambda op, im, mo: ":0:" in op,
+                     rule="real tunnel client and real tunnel server joined by two Go channels of capacity K in {1,2,4,64} frames (Send blocks while full), "
+                          "real clock and parallelism, no bubble: per round 1-5 bidi RPCs; each direction of each RPC has 0-4 messages (0 B .. 150 kB, window and chunk "
+                          "boundaries) and an application that reads everything or never reads (30 %); when nothing moves any more, bytes on the wire and bytes "
+                          "received per half-stream are compared with the closed model's schedule-independent outcome (Closed.runToEnd); non-trivial = rounds with a "
+                          "stalled application",
+                     n_quick=40, n_thorough=600)
+
+
 CLOSEERR = ops_family("closeerr", "^TestW2CloseErr$", ["closeerr"], monitor=_closeerr_monitor,
                       nontrivial=lambda op, im, mo: "cause=close" not in op,
                       rule="forward tunnels over real grpc-go (bufconn): Close / cancel / deadline of the opening context / server stop, with and "
@@ -429,6 +528,9 @@ def _proj(prop, line):
         # headers / close frames, metadata calls, and how every receive ended (payloads abstracted)
         ends = [re.sub(r"(recv|decode|invoke):msg:.*", r"\1:msg", d) for d in D if '.recv:' in d or '.decode:' in d or '.invoke:' in d]
         return f"F={[f for f in F if kind(f) in ('hdr', 'close')]} D={[d for d in D if '.sethdr:' in d or '.sendhdr:' in d or '.settlr:' in d or '.header:' in d or '.trailer:' in d] + ends}"
+    if prop == "C05":
+        # when data and credit flow, and when every blocked send returns
+        return f"F={[f for f in F if kind(f) in ('msg', 'more', 'wu')]} D={[d for d in D if '.send:' in d]}"
     if prop == "C06":
         return f"F={[f for f in F if kind(f) in ('msg', 'more', 'wu', 'close')]}"
     if prop == "C07":
@@ -696,7 +798,7 @@ PROPS = {
     "C08": {
         "lean_targets": ["Proofs.Props.C08"],
         "prop_files": ["Proofs/Props/C08.lean"],
-        "families": [SWORLD("C08"), CWORLD("C08"), FINDMETHOD],
+        "families": [SWORLD("C08"), CWORLD("C08"), FINDMETHOD, IDORDER],
         "side_conditions": ["Proofs.Facts.server_initial_lastSeen"],
         "trusted_base": ["L-frame server endpoint model TunnelModel/LFrame/Server.lean (one step = one stimulus run to quiescence)",
                          "Method.lean model of method-name splitting and findMethod"],
@@ -778,7 +880,7 @@ PROPS = {
     "C12": {
         "lean_targets": ["Proofs.Props.C12"],
         "prop_files": ["Proofs/Props/C12.lean"],
-        "families": [REGISTRY("C12")],
+        "families": [REGISTRY("C12"), REGRACE],
         "trusted_base": ["API-granular registry model TunnelModel/Lifecycle.lean + RoundRobin.lean (one step = one API event at quiescence)"],
         "assumptions": ["tunnel ids are never reused (legal ops); steps below quiescence granularity (the two registration steps of openReverseTunnel, unregister) are covered by the hook-level family when present, not by this theorem",
                         "grpc-go delivers stream open/close to the handler (real grpc-go on bufconn in the harness)"],
@@ -786,7 +888,7 @@ PROPS = {
     "C03": {
         "lean_targets": ["Proofs.Props.C03", "Proofs.Props.C03b"],
         "prop_files": ["Proofs/Props/C03.lean", "Proofs/Props/C03b.lean"],
-        "families": [W1("C03"), SWORLD("C03"), CWORLD("C03"), META("C03")],
+        "families": [W1("C03"), SWORLD("C03"), CWORLD("C03"), META("C03"), BOUNDED],
         "trusted_base": ["L-frame server endpoint model TunnelModel/LFrame/Server.lean; client endpoint model TunnelModel/LFrame/Client.lean"],
         "assumptions": ["as C08", "bounded transport buffering (finite K) is represented by the loop-idle observation B=1 of the harness, not by a theorem yet"],
     },
@@ -818,9 +920,9 @@ PROPS = {
                         "Go runtime scheduling; memory retained by the garbage collector is outside the model"],
     },
     "C05": {
-        "lean_targets": ["Proofs.Props.C05"],
-        "prop_files": ["Proofs/Props/C05.lean"],
-        "families": [FLOW, tiered(FLOWEX, FLOWEX_DEEP), FLOWSTRESS],
+        "lean_targets": ["Proofs.Props.C05", "Proofs.Props.C05b"],
+        "prop_files": ["Proofs/Props/C05.lean", "Proofs/Props/C05b.lean"],
+        "families": [FLOW, tiered(FLOWEX, FLOWEX_DEEP), FLOWSTRESS, BOUNDED, SWORLD("C05"), CWORLD("C05"), W1("C05")],
         "side_conditions": ["Proofs.Facts.chunkMax_pos", "Proofs.Facts.window_eq"],
         "trusted_base": ["L-atomic model TunnelModel/FlowStep.lean (one action = one atomic operation / critical section of flow_control.go)",
                          "verif yield points in defaultSender.send / updateWindow (repo hooks, tag verif)"],
